@@ -1,6 +1,8 @@
 """C03 -- join/free return after, and only after, termination (structural part)."""
-from abtverif import seq
-from abtverif.seq import idx, is_call, show, has_if, atomic_cmp
+import re
+
+from abtverif import canon, cfg, seq
+from abtverif.seq import idx, is_call, show, has_if
 from . import common
 
 EXPLANATION = (
@@ -31,60 +33,225 @@ T = "src/thread.c"
 YH = "src/include/abti_ythread.h"
 
 
-def _state_label(P):
+# ---- canonical vocabulary ------------------------------------------------------------------
+# Every rule below is phrased over abtverif.canon labels (seq.Sel(canon=True)): conditions are
+# independent of the polarity/spelling of the test and of the names of locals; call arguments are
+# compared through canon.expr / canon.rooted (the value a local was assigned from), never through
+# the name of a local.  Only record/field names, callee names, enumerators, macro names and the
+# parameter names of the anchor functions (taken from F.params) occur.
+
+_STATE_RE = re.compile(r"^ABTD_atomic_(\w+?)_load_int\(&(?:ABTI_thread::state|ABTI_ythread::thread\.state)\) == (\w+)$")
+_LINK_LOAD = r"ABTD_atomic_(\w+?)_load_ythread_context_ptr\(&(?:ABTD_ythread_context::p_link|ABTI_ythread::ctx\.p_link)\)"
+_LINK_RE = re.compile("^" + _LINK_LOAD + "$")
+_LINK_RET_RE = re.compile(r"^ABTI_ythread_context_get_ythread\(" + _LINK_LOAD + r"\)$")
+_REQUEST = ("&ABTI_thread::request", "&ABTI_ythread::thread.request")
+_GET_JOINER = "ABTI_ythread_atomic_get_joiner("
+_MACROVALS = {}
+
+
+def _macro_value(P, macro):
+    """Value of an internal object-like macro (abti.h), read off any constant expression that its
+    expansion produced somewhere in the program (private emulation of a macro table)."""
+    key = (id(P), macro)
+    if key not in _MACROVALS:
+        val = None
+        for G in P.functions.values():
+            for nd in G.nodes:
+                if nd and nd.get("m") and nd["m"][0] == macro and len(nd["m"]) == 1 and "cv" in nd and \
+                        nd.get("k") in ("cast", "bin"):
+                    val = nd["cv"]
+                    if nd.get("k") == "cast":
+                        break
+            if val is not None:
+                break
+        _MACROVALS[key] = val
+    return _MACROVALS[key]
+
+
+_DEPTH = 6   # locals are looked through up to this many copies (canon's default of 3 is too short for alias chains)
+
+
+def _cargs(F, tok):
+    """Canonical (local-name independent) arguments of a call token."""
+    return tuple(canon.expr(F, a, depth=_DEPTH) for a in F.nodes[tok[-1]]["a"])
+
+
+def _rargs(F, tok):
+    """Arguments of a call token as object-identity preserving access paths."""
+    return tuple(canon.rooted(F, a, depth=_DEPTH) for a in F.nodes[tok[-1]]["a"])
+
+
+def _field_of(F, i, depth=_DEPTH):
+    """F.field_of for a pointer-valued expression (the address argument of an atomic wrapper) that
+    also looks through a local pointer holding the address of a field (`q = &p->state; store(q, v)`
+    accesses ABTI_thread::state)."""
+    fo = F.field_of(i)
+    if fo:
+        return fo
+    j = F.strip(i)
+    if j is None or j < 0 or depth <= 0:
+        return None
+    nd = F.nodes[j]
+    if nd.get("k") == "ref" and nd.get("dk") == "var":
+        d = canon.reaching_def(F, nd["n"], j)
+        if isinstance(d, int) and d >= 0:
+            dn = F.nodes[F.strip(d)]
+            if dn.get("k") == "un" and dn["op"] == "&":
+                return F.field_of(d)
+            if dn.get("k") == "ref":
+                return _field_of(F, d, depth - 1)
+    return None
+
+
+def _lvalue_field_of(F, lh):
+    """(record, field) written by an assignment to `lh`: a member access, or `*q` with q a local
+    pointer to a field.  An assignment to a local variable itself writes no field."""
+    fo = F.field_of(lh)
+    if fo:
+        return fo
+    nd = F.nodes[F.strip(lh)]
+    if nd.get("k") == "un" and nd["op"] == "*":
+        return _field_of(F, nd["e"])
+    return None
+
+
+class _Sel(seq.Sel):
+    """seq.Sel whose field stores ('st' / 'ast' tokens) are also recognised through a local pointer
+    to the field (private emulation; the engine only sees direct member accesses)."""
+
+    def _want_field(self, F, node):
+        par = F.parent_map().get(node)
+        if par is not None and F.nodes[par].get("k") == "call":
+            fo = _field_of(F, node)          # address argument of an atomic wrapper
+        else:
+            fo = _lvalue_field_of(F, node)   # left-hand side of an assignment / operand of ++
+        if fo and (fo[1] in self.fields or ("%s::%s" % fo) in self.fields):
+            return "%s::%s" % fo
+        return None
+
+
+def _cshow(F, toks):
+    """seq.show with call arguments rendered canonically (instance labels without local names)."""
+    out = []
+    for t in toks:
+        if t[0] == "call":
+            out.append("%s(%s)" % (t[1], ",".join(_cargs(F, t))))
+        else:
+            out.append(show([t]))
+    return " ; ".join(out)
+
+
+def _expanded(F, node, depth=3):
+    """Node ids of an expression with locals looked through (single reaching definition)."""
+    out = []
+    work = [(node, depth)]
+    while work:
+        i, d = work.pop()
+        for j in F.descendants(i):
+            out.append(j)
+            nd = F.nodes[j]
+            if d > 0 and nd.get("k") == "ref" and nd.get("dk") == "var":
+                r = canon.reaching_def(F, nd["n"], j)
+                if isinstance(r, int) and r >= 0:
+                    work.append((r, d - 1))
+    return out
+
+
+def _joiner_type_test(P, text, F, node):
+    """A test of the `type` of the joiner (the unit returned by ABTI_ythread_atomic_get_joiner):
+    ('joiner-ext', flip) when it is exactly `type == ABTI_THREAD_TYPE_EXT`, 'joiner-type?:<label>'
+    for any other test of that field, None if the condition does not look at the joiner's type."""
+    mems = [j for j in _expanded(F, node) if F.nodes[j].get("k") == "mem" and F.nodes[j]["f"] == "type" and
+            canon.rooted(F, j, depth=_DEPTH).startswith(_GET_JOINER)]
+    if not mems:
+        return None
+    EXT = _macro_value(P, "ABTI_THREAD_TYPE_EXT")
+    for j in mems:
+        T = canon.expr(F, j)
+        if EXT == 0 and text == T:
+            return ("joiner-ext", True)       # label T is true for type != 0, i.e. not external
+        if EXT is not None and text == "%s == %d" % (T, EXT):
+            return ("joiner-ext", False)
+    return "joiner-type?:" + text
+
+
+def _labels(P, extra=False):
+    """conds callback for canon selectors: the rule's own short labels.
+      state==TERMINATED/<order>  atomic load of the state field compared with TERMINATED
+      join-pending               the REQ_JOIN bit of the value returned by fetch_or(&request, REQ_JOIN)
+      link                       the (atomically loaded) p_link is non-NULL
+      joiner                     ABTI_ythread_atomic_get_joiner(..) returned a joiner
+      joiner-ext                 joiner->thread.type == ABTI_THREAD_TYPE_EXT
+      yieldable(<param>)         ABTI_thread_get_ythread_or_null(<parameter>) is non-NULL
+    extra=True: other tests of a type / p_last_xstream field keep their canonical label."""
     TERM = P.enum_consts["ABT_THREAD_STATE_TERMINATED"]
+    JOIN = _macro_value(P, "ABTI_THREAD_REQ_JOIN")
+    pend = None
+    if JOIN is not None:
+        pend = re.compile(r"^ABTD_atomic_fetch_or_uint32\((?:%s), %d\) & %d(?: == %d)?$" %
+                          ("|".join(re.escape(r) for r in _REQUEST), JOIN, JOIN, JOIN))
 
     def conds(text, F, node):
-        c = atomic_cmp(F, node, "ABTI_thread::state")
-        if c and c[2] == TERM:
-            return "state%sTERMINATED/%s" % (c[1], c[0])
-        if "req" in text or "p_joiner" in text or "p_link" in text or "p_last_xstream" in text or "p_ythread" in text:
-            return text
+        m = _STATE_RE.match(text)
+        if m and m.group(2) in ("ABT_THREAD_STATE_TERMINATED", str(TERM)):
+            return "state==TERMINATED/%s" % m.group(1)
+        if pend is not None and pend.match(text):
+            return "join-pending"
+        if _LINK_RE.match(text):
+            return "link"
+        if text.startswith(_GET_JOINER) and text.endswith(")") and text.count("(") == 1:
+            return "joiner"
+        m = re.match(r"^ABTI_thread_get_ythread_or_null\((\w+)\)$", text)
+        if m and m.group(1) in [p["n"] for p in F.params]:
+            return "yieldable(%s)" % m.group(1)
+        if "type" in text:
+            r = _joiner_type_test(P, text, F, node)
+            if r is not None:
+                return r
+        if extra and ("p_last_xstream" in text or "::type" in text or ".type" in text):
+            return True
         return False
     return conds
 
 
 def _observed(toks):
     """Is the last evaluation of the state test an acquire-load observation of TERMINATED?"""
-    tests = [t for t in toks if t[0] == "if" and t[1].startswith("state")]
-    if not tests:
-        return False
-    last = tests[-1]
-    if not last[1].endswith("/acquire"):
-        return False
-    return (last[1].startswith("state==") and last[2]) or (last[1].startswith("state!=") and not last[2])
+    tests = [t for t in toks if t[0] == "if" and t[1].startswith("state==TERMINATED/")]
+    return bool(tests) and tests[-1][1].endswith("/acquire") and tests[-1][2] is True
 
 
 def rule_R1(P, rep):
-    conds = _state_label(P)
+    conds = _labels(P)
     helpers = ["thread_join_busywait", "thread_join_yield_thread"]
     for fn in helpers:
         F = P.fn(fn, T)
-        sel = seq.Sel(calls={"ABTI_ythread_yield"}, conds=conds)
+        sel = _Sel(calls={"ABTI_ythread_yield"}, conds=conds, canon=True)
         ps = [p for p in seq.sequences(F, sel) if p[1] == "ret"]
         rep.need(ps, "%s has no returning path" % fn)
         for toks, kind, rv, rtxt in ps:
-            rep.ob("R1", "%s returns only after an acquire-load of state equal to TERMINATED [%s]" % (fn, show(toks)),
+            rep.ob("R1", "%s returns only after an acquire-load of state equal to TERMINATED [%s]" % (fn, _cshow(F, toks)),
                    _observed(toks), "last state test: %s" % [t[1:3] for t in toks if t[0] == "if"][-1:],
-                   loc="%s:%d" % (F.file, F.line), site="%s/%s" % (fn, show(toks)))
+                   loc="%s:%d" % (F.file, F.line), site="%s/%s" % (fn, _cshow(F, toks)))
     waiters = set(helpers)
     Fw = P.fn("thread_join_futexwait", T, required=False)
     if Fw is not None:
-        sel = seq.Sel(calls={"thread_join_busywait", "ABTD_futex_suspend"}, conds=conds)
+        sel = _Sel(calls={"thread_join_busywait", "ABTD_futex_suspend"}, conds=conds, canon=True)
         for toks, kind, rv, rtxt in seq.sequences(Fw, sel):
             if kind != "ret":
                 continue
             calls = [t for t in toks if t[0] == "call"]
-            ok = bool(calls) and calls[-1][1] == "thread_join_busywait" and calls[-1][2] == ("var:" + Fw.params[0]["n"],)
-            rep.ob("R1", "thread_join_futexwait ends with thread_join_busywait(target) [%s]" % show(toks), ok,
+            ok = bool(calls) and calls[-1][1] == "thread_join_busywait" and _rargs(Fw, calls[-1]) == (Fw.params[0]["n"],)
+            rep.ob("R1", "thread_join_futexwait ends with thread_join_busywait(target) [%s]" % _cshow(Fw, toks), ok,
                    "a resumed external joiner must still wait for TERMINATED", loc="%s:%d" % (Fw.file, Fw.line),
-                   site="thread_join_futexwait/%s" % show(toks))
+                   site="thread_join_futexwait/%s" % _cshow(Fw, toks))
         waiters.add("thread_join_futexwait")
     F = P.fn("thread_join", T)
-    sel = seq.Sel(calls=lambda fn: fn in waiters or fn == "ABTI_ythread_suspend_join", conds=conds)
+    sel = _Sel(calls=lambda fn: fn in waiters or fn == "ABTI_ythread_suspend_join", conds=conds, canon=True)
     ps = [p for p in seq.sequences(F, sel) if p[1] == "ret"]
     rep.need(len(ps) >= 4, "thread_join: %d returning paths" % len(ps))
-    tgt = "var:" + F.params[1]["n"]
+    tgt = F.params[1]["n"]
+    # the join target itself, or the descriptor embedded in its ULT view
+    tgt_paths = (tgt, "&ABTI_thread_get_ythread_or_null(%s)->thread" % tgt, "&ABTI_thread_get_ythread(%s)->thread" % tgt)
     for toks, kind, rv, rtxt in ps:
         # last observation: a waiter call on the target, or a direct observation, with nothing that
         # could un-observe in between (TERMINATED is final, so any later event is fine)
@@ -93,26 +260,34 @@ def rule_R1(P, rep):
         why = ""
         if waits:
             last = toks[waits[-1]]
-            on_target = last[2][-1] in (tgt, "&ABTI_ythread::thread")
+            waited = _rargs(F, last)[-1]
+            on_target = waited in tgt_paths
             ok = on_target
             if not on_target:
-                why = "waits for %s, not for the join target" % (last[2][-1],)
+                why = "waits for %s, not for the join target" % (waited,)
             sj = idx(toks, is_call("ABTI_ythread_suspend_join"))
             if sj and sj[-1] > waits[-1]:
                 ok = False
                 why = "returns right after being resumed by the hand-off, without waiting for TERMINATED"
         elif not ok:
-            why = "returns without observing TERMINATED (path: %s)" % show(toks)
-        rep.ob("R1", "thread_join path [%s]" % show(toks)[:300], ok, why, loc="%s:%d" % (F.file, F.line),
-               site="thread_join/%s" % show(toks)[:300])
+            why = "returns without observing TERMINATED (path: %s)" % _cshow(F, toks)
+        rep.ob("R1", "thread_join path [%s]" % _cshow(F, toks)[:300], ok, why, loc="%s:%d" % (F.file, F.line),
+               site="thread_join/%s" % _cshow(F, toks)[:300])
     rep.min_instances("R1", 7)
 
 
+def _announce_ok(F, tok, JOIN):
+    """fetch_or(&<unit>.request, ABTI_THREAD_REQ_JOIN)?"""
+    a = _cargs(F, tok)
+    return len(a) == 2 and a[0] in _REQUEST and a[1] == str(JOIN)
+
+
 def rule_R2(P, rep):
-    conds = _state_label(P)
-    REQ_JOIN = 1
+    conds = _labels(P)
+    REQ_JOIN = _macro_value(P, "ABTI_THREAD_REQ_JOIN")
+    rep.need(REQ_JOIN is not None, "value of ABTI_THREAD_REQ_JOIN not found")
     F = P.fn("thread_join", T)
-    sel = seq.Sel(calls={"ABTI_ythread_suspend_join", "ABTD_atomic_fetch_or_uint32"}, conds=conds, decls={"req"})
+    sel = _Sel(calls={"ABTI_ythread_suspend_join", "ABTD_atomic_fetch_or_uint32"}, conds=conds, canon=True)
     n = 0
     for toks, kind, rv, rtxt in seq.sequences(F, sel):
         sj = idx(toks, is_call("ABTI_ythread_suspend_join"))
@@ -124,9 +299,9 @@ def rule_R2(P, rep):
         if not fo or fo[0] > sj[0]:
             why.append("suspends before announcing the join request")
         else:
-            if toks[fo[0]][2][0] not in ("&ABTI_thread::request", "&ABTI_ythread::thread.request") or toks[fo[0]][2][1] != str(REQ_JOIN):
-                why.append("fetch_or on %s" % (toks[fo[0]][2],))
-            between = [t for t in toks[fo[0]:sj[0]] if t[0] == "if" and "req &" in t[1]]
+            if not _announce_ok(F, toks[fo[0]], REQ_JOIN):
+                why.append("fetch_or on %s" % (_cargs(F, toks[fo[0]]),))
+            between = [t for t in toks[fo[0]:sj[0]] if t[0] == "if" and t[1] == "join-pending"]
             if not between or between[-1][2] is not False:
                 why.append("suspends although a join request was already pending (the target may be past its joiner check)")
         rep.ob("R2", "thread_join suspends only after fetch_or(REQ_JOIN) showed no pending request", not why,
@@ -135,7 +310,7 @@ def rule_R2(P, rep):
     # callback: BLOCKED before p_link
     C = P.fn("ABTI_ythread_callback_suspend_join", "src/ythread.c")
     BLOCKED = P.enum_consts["ABT_THREAD_STATE_BLOCKED"]
-    sel = seq.Sel(fields={"state", "p_link"})
+    sel = _Sel(fields={"state", "p_link"}, canon=True)
     for toks, kind, rv, rtxt in seq.sequences(C, sel):
         if kind != "ret":
             continue
@@ -149,8 +324,10 @@ def rule_R2(P, rep):
     if Fw is None:
         rep.skip("R2", "no futex join in this configuration")
     else:
-        sel = seq.Sel(calls={"ABTD_futex_suspend", "ABTD_atomic_fetch_or_uint32"}, fields={"type", "p_arg", "p_link"},
-                      conds=conds)
+        EXT = _macro_value(P, "ABTI_THREAD_TYPE_EXT")
+        rep.need(EXT is not None, "value of ABTI_THREAD_TYPE_EXT not found")
+        sel = _Sel(calls={"ABTD_futex_suspend", "ABTD_atomic_fetch_or_uint32"}, fields={"type", "p_arg", "p_link"},
+                      conds=conds, canon=True)
         n = 0
         for toks, kind, rv, rtxt in seq.sequences(Fw, sel):
             ln = [i for i, t in enumerate(toks) if t[0] == "ast" and t[2].endswith("::p_link")]
@@ -162,15 +339,19 @@ def rule_R2(P, rep):
             ar = [i for i, t in enumerate(toks) if t[0] == "st" and t[1] == "ABTI_thread::p_arg"]
             su = idx(toks, is_call("ABTD_futex_suspend"))
             fo = idx(toks, is_call("ABTD_atomic_fetch_or_uint32"))
+            # the futex the joiner sleeps on (an addressable object of this frame)
+            slept = _cargs(Fw, toks[su[0]])[0] if su else None
             if not (ty and ar and ty[0] < ln[0] and ar[0] < ln[0]):
                 why.append("dummy joiner's type/p_arg not set before p_link is published")
-            elif toks[ty[0]][3] != 0 or toks[ar[0]][3] != "&futex":
-                why.append("dummy joiner prepared with type=%s p_arg=%s" % (toks[ty[0]][3], toks[ar[0]][3]))
+            elif toks[ty[0]][3] != EXT or not str(toks[ar[0]][3]).startswith("&") or \
+                    (slept is not None and toks[ar[0]][3] != slept):
+                why.append("dummy joiner prepared with type=%s p_arg=%s (sleeps on %s)" % (toks[ty[0]][3], toks[ar[0]][3], slept))
             if "release" not in toks[ln[0]][1]:
                 why.append("p_link not release-stored")
             if not su or su[0] < ln[0]:
                 why.append("does not sleep on the futex after publishing the link")
-            if not fo or fo[0] > ln[0] or not has_if(toks[fo[0]:ln[0]], "req & (1 << 0)", False):
+            if not fo or fo[0] > ln[0] or not _announce_ok(Fw, toks[fo[0]], REQ_JOIN) or \
+                    not has_if(toks[fo[0]:ln[0]], "join-pending", False):
                 why.append("publishes the link although a join request was already pending")
             rep.ob("R2", "futex join: announce, prepare dummy, release-store p_link, sleep", not why, "; ".join(why),
                    loc=Fw.file, site="thread_join_futexwait/link")
@@ -179,25 +360,26 @@ def rule_R2(P, rep):
 
 
 def rule_R3_R4(P, rep):
-    conds = _state_label(P)
+    conds = _labels(P, extra=True)
     G = P.fn("ABTI_ythread_atomic_get_joiner", YH)
-    sel = seq.Sel(calls={"ABTD_atomic_fetch_or_uint32"}, conds=conds, decls={"p_link", "req"})
+    sel = _Sel(calls={"ABTD_atomic_fetch_or_uint32"}, conds=conds, canon=True)
     ps = [p for p in seq.sequences(G, sel, max_repeat=3) if p[1] == "ret"]
     rep.need(len(ps) >= 3, "get_joiner: %d paths" % len(ps))
     for toks, kind, rv, rtxt in ps:
         why = []
         if rv == 0:
-            if not (has_if(toks, "p_link", False) and has_if(toks, "req & (1 << 0)", False)):
+            if not (has_if(toks, "link", False) and has_if(toks, "join-pending", False)):
                 why.append("returns NULL without having seen 'no link' and 'no prior REQ_JOIN' from its own fetch_or")
         else:
-            links = [t for t in toks if t[0] == "if" and t[1] == "p_link"]
+            links = [t for t in toks if t[0] == "if" and t[1] == "link"]
             if not links or links[-1][2] is not True:
                 why.append("returns a joiner although the last read link was NULL")
-            if rtxt != "ABTI_ythread_context_get_ythread(p_link)":
+            if not _LINK_RET_RE.match(rtxt or ""):
                 why.append("returns %s" % rtxt)
-        rep.ob("R3", "get_joiner path -> %s [%s]" % (rtxt, show(toks)[:200]), not why, "; ".join(why), loc=G.file,
-               site="get_joiner/%s/%s" % (rtxt, len(toks)))
-    loads = [G.nodes[i] for _b, i in G.calls() if G.nodes[i]["a"] and (G.field_of(G.nodes[i]["a"][0]) or ("", ""))[1] == "p_link"]
+        short = "NULL" if rv == 0 else ("get_ythread(link)" if _LINK_RET_RE.match(rtxt or "") else rtxt)
+        rep.ob("R3", "get_joiner path -> %s [%s]" % (short, _cshow(G, toks)[:200]), not why, "; ".join(why), loc=G.file,
+               site="get_joiner/%s/%s" % (short, len(toks)))
+    loads = [G.nodes[i] for _b, i in G.calls() if G.nodes[i]["a"] and (_field_of(G, G.nodes[i]["a"][0]) or ("", ""))[1] == "p_link"]
     rep.ob("R3", "get_joiner reads p_link with acquire loads only", bool(loads) and all("acquire_load" in nd["fn"] for nd in loads),
            str([nd["fn"] for nd in loads]), loc=G.file, site="get_joiner/acquire")
     # every terminating jump is preceded by exactly one joiner release
@@ -208,25 +390,25 @@ def rule_R3_R4(P, rep):
              ("ABTI_thread_handle_request_cancel", T)]
     for fn, file in table:
         F = P.fn(fn, file)
-        sel = seq.Sel(calls=lambda c: c in jumps or c in rel, conds=conds)
+        sel = _Sel(calls=lambda c: c in jumps or c in rel, conds=conds, canon=True)
         ps = seq.sequences(F, sel)
         n = 0
+        self_arg = [p["n"] for p in F.params if "ABTI_ythread *" in p["t"] or "ABTI_thread *" in p["t"]][0]
         for toks, kind, rv, rtxt in ps:
             js = idx(toks, lambda t: t[0] == "call" and t[1] in jumps)
             if not js:
                 continue
             n += 1
             rs = idx(toks, lambda t: t[0] == "call" and t[1] in rel)
-            if has_if(toks, "p_ythread", False):
+            if has_if(toks, "yieldable(%s)" % self_arg, False):
                 # a tasklet has no context and therefore no suspended joiner link (it is joined by polling)
-                rep.ob("R3", "%s: non-yieldable target needs no joiner release" % fn, len(rs) == 0, show(toks),
+                rep.ob("R3", "%s: non-yieldable target needs no joiner release" % fn, len(rs) == 0, _cshow(F, toks),
                        loc=F.file, site="%s/joiner-release/tasklet" % fn)
                 continue
             ok = len(rs) == 1 and rs[0] < js[0]
-            self_arg = "var:" + [p["n"] for p in F.params if "ABTI_ythread *" in p["t"] or "ABTI_thread *" in p["t"]][0]
-            if ok and toks[rs[0]][2][-1] != self_arg and fn != "ABTI_thread_handle_request_cancel":
+            if ok and _rargs(F, toks[rs[0]])[-1] != self_arg and fn != "ABTI_thread_handle_request_cancel":
                 ok = False
-            rep.ob("R3", "%s releases the terminating ULT's joiner exactly once before jumping [%s]" % (fn, show(toks)[:200]),
+            rep.ob("R3", "%s releases the terminating ULT's joiner exactly once before jumping [%s]" % (fn, _cshow(F, toks)[:200]),
                    ok, "joiner releases: %d" % len(rs), loc=F.file, site="%s/joiner-release/%s" % (fn, len(toks)))
         rep.need(n >= 1, "%s: no terminating jump found" % fn)
     # exit_to_primary: named exception (root ULT has no joiner) -- must not be called with a joinable ULT: checked by callers
@@ -235,49 +417,67 @@ def rule_R3_R4(P, rep):
     ext_tests = {}
     for fn in ("ABTI_ythread_exit", "ABTI_ythread_resume_joiner"):
         F = P.fn(fn, YH)
-        sel = seq.Sel(calls=lambda c: c in wake or c in ("ABTI_pool_dec_num_blocked", "ABTI_ythread_jump_to_parent_internal"),
-                      fields={"state"}, conds=lambda t: "p_joiner" in t or "p_last_xstream" in t or "thread.type" in t)
+        sel = _Sel(calls=lambda c: c in wake or c in ("ABTI_pool_dec_num_blocked", "ABTI_ythread_jump_to_parent_internal"),
+                      fields={"state"}, conds=conds, canon=True)
         for toks, kind, rv, rtxt in seq.sequences(F, sel):
-            if not has_if(toks, "p_joiner", True):
+            if not has_if(toks, "joiner", True):
                 w = idx(toks, lambda t: t[0] == "call" and t[1] in wake)
-                rep.ob("R4", "%s without joiner wakes nobody" % fn, not w, show(toks), loc=F.file, site="%s/no-joiner" % fn)
+                rep.ob("R4", "%s without joiner wakes nobody" % fn, not w, _cshow(F, toks), loc=F.file, site="%s/no-joiner" % fn)
                 continue
             w = [t for t in toks if t[0] == "call" and t[1] in wake]
             why = []
             if len(w) != 1:
                 why.append("%d wake-ups for one joiner" % len(w))
             else:
+                woken = _rargs(F, w[0])
                 if w[0][1] == "ABTI_ythread_jump_to_sibling_internal":
                     dec = idx(toks, is_call("ABTI_pool_dec_num_blocked"))
                     run = [t for t in toks if t[0] == "ast" and t[2] == "ABTI_thread::state"]
                     if len(dec) != 1 or len(run) != 1 or run[0][3] != P.enum_consts["ABT_THREAD_STATE_RUNNING"]:
                         why.append("direct hand-off must decrement the joiner's blocked counter once and store RUNNING once")
-                    if w[0][2][2] != "var:p_joiner":
-                        why.append("jumps to %s" % w[0][2][2])
-                elif w[0][2][-1] not in ("var:p_joiner", "var:p_futex"):
-                    why.append("wakes %s" % (w[0][2][-1],))
+                    if not woken[2].startswith(_GET_JOINER):
+                        why.append("jumps to %s" % woken[2])
+                elif w[0][1] == "ABTD_futex_resume":
+                    # the futex the external joiner stored in its dummy descriptor's p_arg
+                    if not (woken[-1].startswith(_GET_JOINER) and woken[-1].endswith(")->thread.p_arg")):
+                        why.append("wakes %s" % (woken[-1],))
+                elif not woken[-1].startswith(_GET_JOINER) or not woken[-1].endswith(")"):
+                    why.append("wakes %s" % (woken[-1],))
             for t in toks:
-                if t[0] == "if" and "thread.type" in t[1] and "p_joiner" in t[1]:
+                if t[0] == "if" and (t[1] == "joiner-ext" or t[1].startswith("joiner-type?:")):
                     ext_tests.setdefault(fn, set()).add(t[1])
                     if t[2] and (not w or w[0][1] != "ABTD_futex_resume"):
                         why.append("external joiner not woken through its futex")
                     if not t[2] and w and w[0][1] == "ABTD_futex_resume":
                         why.append("futex resume for a yieldable joiner")
-            rep.ob("R4", "%s joiner path [%s]" % (fn, show(toks)[:240]), not why, "; ".join(why), loc=F.file,
-                   site="%s/joiner/%s" % (fn, show(toks)[:160]))
+            rep.ob("R4", "%s joiner path [%s]" % (fn, _cshow(F, toks)[:240]), not why, "; ".join(why), loc=F.file,
+                   site="%s/joiner/%s" % (fn, _cshow(F, toks)[:160]))
     if P.variant != "active_wait":
         a, b = ext_tests.get("ABTI_ythread_exit", set()), ext_tests.get("ABTI_ythread_resume_joiner", set())
-        rep.ob("R4", "exit and resume_joiner recognise an external joiner with the same test", a == b and len(a) == 1 and
-               all("==" in t for t in a), "exit: %s ; resume_joiner: %s" % (sorted(a), sorted(b)), loc=YH,
+        rep.ob("R4", "exit and resume_joiner recognise an external joiner with the same test", a == b == {"joiner-ext"},
+               "exit: %s ; resume_joiner: %s (expected: joiner's type == ABTI_THREAD_TYPE_EXT)" % (sorted(a), sorted(b)), loc=YH,
                site="joiner/ext-test-agreement")
     rep.min_instances("R3", 8)
     rep.min_instances("R4", 6)
 
 
+def _handle_store(F, lh, pname):
+    """Is `lh` a store through the handle parameter `pname`: `*p` / `p[k]` where the pointer is the
+    parameter itself or a local alias of it / of `&p[k]`?  (A store to a local copy of the handle
+    is not one.)"""
+    n = F.nodes[F.strip(lh)]
+    if n.get("k") == "un" and n["op"] == "*":
+        base = canon.rooted(F, n["e"], depth=_DEPTH)
+        return base == pname or base.startswith("&%s[" % pname)
+    if n.get("k") == "idx":
+        return canon.rooted(F, n["b"], depth=_DEPTH) == pname
+    return False
+
+
 def rule_R5(P, rep):
     for fn, file in (("ABT_thread_free", T), ("ABT_thread_free_many", T)):
         F = P.fn(fn, file)
-        sel = seq.Sel(calls={"thread_join", "ABTI_thread_free", "ABTI_thread_join"}, indirect=False)
+        sel = _Sel(calls={"thread_join", "ABTI_thread_free", "ABTI_thread_join"}, indirect=False, canon=True)
         # handle stores: *thread = NULL / thread_list[i] = NULL
         n = 0
         for toks, kind, rv, rtxt in seq.sequences(F, sel, max_repeat=2):
@@ -289,21 +489,25 @@ def rule_R5(P, rep):
                 continue
             n += 1
             ok = len(j) >= 1 and all(any(jj < ff for jj in j) for ff in f) and len(j) == len(f) and \
-                all(toks[jj][2][-1] == toks[ff][2][-1] for jj, ff in zip(j, f)) and all(jj < ff for jj, ff in zip(j, f))
-            rep.ob("R5", "%s joins each unit before freeing it [%s]" % (fn, show(toks)), ok, "", loc=F.file,
+                all(_cargs(F, toks[jj])[-1] == _cargs(F, toks[ff])[-1] for jj, ff in zip(j, f)) and \
+                all(jj < ff for jj, ff in zip(j, f))
+            rep.ob("R5", "%s joins each unit before freeing it [%s]" % (fn, _cshow(F, toks)), ok, "", loc=F.file,
                    site="%s/join-before-free/%d" % (fn, len(f)))
         rep.need(n >= 1, "%s: no freeing path" % fn)
         # out-handle nulled
+        hp = [p["n"] for p in F.params if p["t"].replace(" ", "") == "ABT_thread*"]
+        rep.need(len(hp) == 1, "%s: handle parameter not found" % fn)
         nulls = [i for b, i, lh, rh in F.stores() if rh is not None and F.nodes[F.strip(rh)].get("cv") is not None and
-                 F.render(lh) in ("*thread", "thread_list[i]")]
+                 _handle_store(F, lh, hp[0])]
         rep.ob("R5", "%s writes the NULL handle into the caller's handle" % fn, len(nulls) >= 1, "", loc=F.file,
                site="%s/null-handle" % fn)
     F = P.fn("ABT_task_free", "src/task.c")
     c = F.calls("ABT_thread_free")
-    rep.ob("R5", "ABT_task_free forwards to ABT_thread_free(task)", len(c) == 1 and F.render(F.nodes[c[0][1]]["a"][0]) == "task",
+    rep.ob("R5", "ABT_task_free forwards to ABT_thread_free(task)",
+           len(c) == 1 and canon.rooted(F, F.nodes[c[0][1]]["a"][0], depth=_DEPTH) == F.params[0]["n"],
            "", loc=F.file, site="ABT_task_free/forward")
     F = P.fn("thread_free", T)
-    sel = seq.Sel(calls={"ABTI_thread_unset_associated_pool", "ABTI_ktable_free", "ABTI_mem_free_thread"})
+    sel = _Sel(calls={"ABTI_thread_unset_associated_pool", "ABTI_ktable_free", "ABTI_mem_free_thread"})
     for toks, kind, rv, rtxt in seq.sequences(F, sel):
         if kind != "ret":
             continue
@@ -311,23 +515,31 @@ def rule_R5(P, rep):
         k = idx(toks, is_call("ABTI_ktable_free"))
         m = idx(toks, is_call("ABTI_mem_free_thread"))
         ok = len(u) <= 1 and len(k) <= 1 and len(m) == 1 and all(i < m[0] for i in u + k)
-        rep.ob("R5", "thread_free path [%s]" % show(toks), ok, "unset<=1, ktable_free<=1, mem_free_thread==1 and last",
-               loc=F.file, site="thread_free/%s" % show(toks))
+        rep.ob("R5", "thread_free path [%s]" % _cshow(F, toks), ok, "unset<=1, ktable_free<=1, mem_free_thread==1 and last",
+               loc=F.file, site="thread_free/%s" % _cshow(F, toks))
     rep.min_instances("R5", 8)
 
 
 def rule_R6(P, rep):
     F = P.fn("ABTI_thread_terminate", "src/include/abti_thread.h")
     TERM = P.enum_consts["ABT_THREAD_STATE_TERMINATED"]
-    sel = seq.Sel(calls={"ABTI_thread_free", "ABTI_mem_free_ythread_mempool_stack"}, fields={"state"},
-                  conds=lambda t: "thread_type" in t)
+    NAMED = _macro_value(P, "ABTI_THREAD_TYPE_NAMED")
+    rep.need(NAMED is not None, "value of ABTI_THREAD_TYPE_NAMED not found")
+    type_test = re.compile(r"^ABTI_(?:thread::|ythread::thread\.)type & (\d+)$")
+
+    def conds(text):
+        m = type_test.match(text)
+        if m:
+            return "type&NAMED" if int(m.group(1)) == NAMED else "type&%s" % m.group(1)
+        return False
+    sel = _Sel(calls={"ABTI_thread_free", "ABTI_mem_free_ythread_mempool_stack"}, fields={"state"},
+                  conds=conds, canon=True)
     kinds = set()
     for toks, kind, rv, rtxt in seq.sequences(F, sel):
         if kind != "ret":
             continue
         st = [i for i, t in enumerate(toks) if t[0] == "ast" and t[2] == "ABTI_thread::state"]
         fr = idx(toks, is_call("ABTI_thread_free"))
-        named = any(t[0] == "if" and "<< 6" in t[1] or (t[0] == "if" and "NAMED" in t[1]) for t in toks)
         why = []
         if len(st) != 1 or toks[st[0]][3] != TERM or "release" not in toks[st[0]][1]:
             why.append("must release-store TERMINATED exactly once")
@@ -341,15 +553,18 @@ def rule_R6(P, rep):
                 kinds.add("named")
                 if after:
                     why.append("named unit touched after TERMINATED was published (the joiner may free it)")
-        rep.ob("R6", "thread_terminate path [%s]" % show(toks)[:200], not why, "; ".join(why), loc=F.file,
+        rep.ob("R6", "thread_terminate path [%s]" % _cshow(F, toks)[:200], not why, "; ".join(why), loc=F.file,
                site="thread_terminate/%s" % ("free" if fr else "named"))
     rep.ob("R6", "thread_terminate has named and unnamed arms", kinds == {"named", "unnamed"}, str(kinds), loc=F.file,
            site="thread_terminate/kinds")
     # freed iff not NAMED: the branch guarding the free tests the NAMED bit
-    NAMED = None
-    conds = [F.render(b.tc) for b in F.blocks.values() if b.tc is not None]
-    rep.ob("R6", "the free is guarded by a test of ABTI_THREAD_TYPE_NAMED", any("thread_type & " in c for c in conds),
-           str(conds), loc=F.file, site="thread_terminate/named-test")
+    labels = []
+    for b in F.blocks.values():
+        if b.tc is not None:
+            atom, _truth = cfg.cond_atom(F, b.tc, True)
+            labels.append(canon.cond(F, atom)[0])
+    rep.ob("R6", "the free is guarded by a test of ABTI_THREAD_TYPE_NAMED", any(conds(c) == "type&NAMED" for c in labels),
+           str(labels), loc=F.file, site="thread_terminate/named-test")
 
 
 def run(P, rep, tier):
